@@ -17,7 +17,8 @@ RULES = {
            "spellings; zero-append cycles), frames of random shape/type (all size residues) grouped into random packets, "
            "75% of the cases with every pwrite split into random positive short writes by the interposed pwrite; in a third "
            "of the cases a second raw device fails to start on a file locked by another holder and is closed right after, "
-           "in the middle of, or after the appends of the device under test. Oracle: "
+           "in the middle of, or after the appends of the device under test; plus acquisitions of 4.3-8 GiB (frames of "
+           "0.3-1.2 GiB stored sparsely by the interposed pwrite, byte-identical to a full write). Oracle: "
            "file bytes == concatenation of the cycle's packets, exact size. Distinct = hash of (frames per cycle, URI "
            "spelling) sequences; every case is non-trivial (>=1 multi-packet cycle or a restart).",
     "C15": "seeded cases: tiff or tiff-json device, 1-3 start/stop cycles, N=1..40 frames of all 8 sample types and "
@@ -76,13 +77,14 @@ def run(prop, tier, replay=None):
             wk.case_is_args = True
             wk.replay_extra = {"scratch": "(fresh directory)"}
             workers.append(wk)
-        if prop == "C15" and sl == 0:
+        if sl == 0:
             # files beyond 4 GiB (sparse on disk): one case per process
             nbig = 2 if tier == "quick" else 16
+            bigmode = "tiffbig" if prop == "C15" else "rawbig"
             for b in range(nbig):
                 d = os.path.join(root, "wbig%d" % b)
                 hp = os.path.join(root, "hbig%d.hash" % b)
-                wk = vlib.Worker([exe, "tiffbig", sub, b, 1, d], ("tiffbig", b, 0), timeout=1800, env={"VERIF_HASH_OUT": hp})
+                wk = vlib.Worker([exe, bigmode, sub, b, 1, d], (bigmode, b, 0), timeout=1800, env={"VERIF_HASH_OUT": hp})
                 wk.hash_path = hp
                 wk.case_is_args = True
                 wk.replay_extra = {"scratch": "(fresh directory)"}
@@ -117,7 +119,7 @@ def run(prop, tier, replay=None):
         tot["files_parsed_by_independent_reader"] = files_checked
         if files_checked < tot.get("files", 0):
             chk.fail("only %d of %d produced files were parsed" % (files_checked, tot.get("files", 0)))
-    for k in (["short_writes", "file_uri_spellings", "empty_cycles", "cycles", "restarts_without_set", "locked_neighbours"] if prop == "C14" else ["short_writes", "cycles", "files_over_4gib"]):
+    for k in (["short_writes", "file_uri_spellings", "empty_cycles", "cycles", "restarts_without_set", "locked_neighbours", "files_over_4gib"] if prop == "C14" else ["short_writes", "cycles", "files_over_4gib"]):
         if not tot.get(k):
             chk.fail("required event class never observed: %s" % k)
     chk.coverage = {"events": tot}
